@@ -177,11 +177,8 @@ pub fn gen_aln(rng: &mut Rng, coord_max: usize, size: usize) -> (AlnSet, String)
                 }
             };
             let read_len: usize = ops.iter().filter(|(k, _)| matches!(k, 'M' | 'I' | 'S' | '=' | 'X')).map(|(_, n)| n).sum();
-            let (with_seq, pad) = if fat && rng.chance(1, 4) && read_len < 4000 && !ops.is_empty() {
-                (true, *rng.pick(&[0usize, 500, 5000, 30_000, 70_000, 140_000]))
-            } else {
-                (read_len <= 300 && rng.chance(1, 2), 0)
-            };
+            let (with_seq, pad) =
+                if fat && rng.chance(1, 4) && read_len < 4000 && !ops.is_empty() { (true, *rng.pick(&[0usize, 500, 5000, 30_000, 70_000, 140_000])) } else { (read_len <= 300 && rng.chance(1, 2), 0) };
             recs.push(AlnRec { name: format!("q{k}"), flags, rid: Some(r), pos: s, ops, pad, with_seq });
             k += 1;
         }
